@@ -143,6 +143,9 @@ func runChildren(r *vlib.Run, bin, entry string, total, batch int, perChildTimeo
 		args := append([]string{"--child", entry, r.Tier, strconv.FormatInt(r.Seed, 10), strconv.Itoa(from), strconv.Itoa(to), prog}, extra...)
 		cmd := exec.Command(exe, args...)
 		cmd.Env = append(os.Environ(), "GORACE=halt_on_error=1 exitcode=66 atexit_sleep_ms=0", "GOTRACEBACK=all")
+		if b%2 == 1 {
+			cmd.Env = append(cmd.Env, "VERIF_DEBUGLOG=1") // every other batch runs the code under test at debug log level
+		}
 		var stdout, stderr bytes.Buffer
 		cmd.Stdout, cmd.Stderr = &stdout, &stderr
 		if err := cmd.Start(); err != nil {
